@@ -6,7 +6,7 @@ ROOT = os.path.dirname(os.path.dirname(os.path.abspath(__file__)))
 BUILD = os.path.join(ROOT, ".build")
 HARNESS = os.path.join(ROOT, "harness")
 GEN = os.path.join(BUILD, "gen")
-KANI_TIMEOUT = int(os.environ.get("VERIF_KANI_TIMEOUT", "1500"))
+KANI_TIMEOUT = int(os.environ.get("VERIF_KANI_TIMEOUT", "3600"))
 
 # harness -> case id whose input layout equals the order of kani::any() bytes
 HARNESS_CASE = {}
